@@ -157,7 +157,9 @@ func lintRun(cmd *cobra.Command, args []string) error {
 					perm = fileInfo.Mode()
 				}
 
-				if err := os.WriteFile(fileResult.Filename, []byte(fixed), perm); err != nil {
+				// Replace atomically (temp file + rename): a failed or interrupted
+				// write must never leave a truncated file behind.
+				if err := replaceFileAtomic(fileResult.Filename, []byte(fixed), perm); err != nil {
 					fmt.Fprintf(cmd.ErrOrStderr(), "Error writing %s: %v\n", fileResult.Filename, err)
 					continue
 				}
